@@ -88,6 +88,8 @@ type Engine struct {
 	RootInit func(st *State)
 	// DynCallHook is called for calls of function values; returning true means the hook has applied the call's effect itself.
 	DynCallHook func(e *Engine, st *State, in *ssa.Call) bool
+	// StoreHook is called (checking mode) before a store is applied.
+	StoreHook func(e *Engine, st *State, x *ssa.Store)
 	// ConvertHook is called (checking mode) before an integer conversion is evaluated.
 	ConvertHook func(e *Engine, st *State, x *ssa.Convert)
 	// BinOpHook is called (checking mode) before an integer binary operation is evaluated.
